@@ -1,5 +1,6 @@
 #include "fft/fact-fft.h"
 #include "fft/factory.h"
+#include "verif-hooks.h"
 
 #include <dsplib/math.h>
 #include <dsplib/utils.h>
@@ -144,6 +145,7 @@ void _facfft(const PlanTree* plan, cmplx_t* restrict x, cmplx_t* restrict mem, c
     const int plen = pplan->size();
 
     _transpose(x, mem, plen, qlen);
+    DSPLIB_VERIF_YIELD();
 
     //inner fft (size P)
     for (int k = 0; k < qlen; ++k) {
@@ -161,7 +163,9 @@ void _facfft(const PlanTree* plan, cmplx_t* restrict x, cmplx_t* restrict mem, c
     }
 
     //outer fft (size Q)
+    DSPLIB_VERIF_YIELD();
     _transpose(x, mem, qlen, plen);
+    DSPLIB_VERIF_YIELD();
     for (int k = 0; k < plen; ++k) {
         auto* px = x + (k * qlen);
         _facfft(qplan, px, mem, tw, head_n);
@@ -171,6 +175,15 @@ void _facfft(const PlanTree* plan, cmplx_t* restrict x, cmplx_t* restrict mem, c
 }
 
 }   // namespace
+
+#ifdef DSPLIB_VERIF
+namespace verif {
+std::atomic<bool>& yield_enabled() {
+    static std::atomic<bool> enabled{false};
+    return enabled;
+}
+}   // namespace verif
+#endif
 
 //-----------------------------------------------------------------------------------------------------------------------------
 FactorFFTPlan::FactorFFTPlan(int n)
